@@ -89,6 +89,13 @@ Proof.
     cbn [andb] in Hst. injection Hst as <-. cbn. auto.
 Qed.
 
+Lemma rmf_error_clean mm sizes wf short disk disk' : rmf mm sizes wf short disk = (None, disk') ->
+  forall x, cnt disk' x = cnt disk x.
+Proof.
+  unfold rmf. destruct (negb wf); [intros H; injection H as <-; reflexivity|].
+  destruct short; intros H; [|discriminate]. injection H as <-. intros x. rewrite cnt_remove_all, count_occ_app. lia.
+Qed.
+
 Lemma cstep_accounted c s e s' : accounted s -> cstep c s e = Some s' -> accounted s'.
 Proof.
   unfold accounted, cur_files. intros Hi Hst x. specialize (Hi x).
@@ -96,8 +103,10 @@ Proof.
   destruct e as [d|o| |keep|]; [|destruct o as [|l| | | |]| | |]; destruct p as [|r|]; cbn [cstep c_ph] in Hst; try discriminate.
   - (* dispatch *)
     destruct (sc_preparse c && rq_clpos d && rq_multipart d).
-    + destruct (rq_wellformed d); injection Hst as <-; cbn; rewrite ?count_occ_app in *; cbn in *; lia.
-    + injection Hst as <-. cbn. rewrite ?count_occ_app in *. cbn in *. lia.
+    + unfold rmf in Hst. destruct (rq_wellformed d); cbn [negb] in Hst.
+      * destruct (rq_short d); injection Hst as <-; cbn; rewrite ?cnt_remove_all, ?count_occ_app in *; cbn in *; lia.
+      * injection Hst as <-. cbn. rewrite ?count_occ_app in *. cbn in *. lia.
+    + destruct (rq_short d); [destruct (sc_stream c); [discriminate|]|]; injection Hst as <-; cbn; rewrite ?count_occ_app in *; cbn in *; lia.
   - (* MultipartForm() *)
     eapply (fwl_accounted 0 r disk det); eauto.
   - (* MultipartFormWithLimit(l) *)
@@ -145,7 +154,9 @@ Proof.
     destruct s as [p disk det]. destruct e as [d|o| |keep|]; [|destruct o as [|l| | | |]| | |]; destruct p as [|r|];
       cbn [cstep c_ph] in Hst; try discriminate;
       try (exfalso; apply Hnt; now left); try (injection Hst as <-; reflexivity).
-    + destruct (sc_preparse c && rq_clpos d && rq_multipart d); [destruct (rq_wellformed d)|]; injection Hst as <-; reflexivity.
+    + destruct (sc_preparse c && rq_clpos d && rq_multipart d).
+      * unfold rmf in Hst. destruct (rq_wellformed d); cbn [negb] in Hst; [destruct (rq_short d)|]; injection Hst as <-; reflexivity.
+      * destruct (rq_short d); [destruct (sc_stream c); [discriminate|]|]; injection Hst as <-; reflexivity.
     + now apply fwl_detached in Hst.
     + now apply fwl_detached in Hst.
 Qed.
